@@ -16,8 +16,10 @@ Sym == {"t", "u", "@", ",", ":", "h1", "h2"}
 TokenStrings == UNION {[1..k -> Sym] : k \in 0..MaxLen}
 ConfHosts == {"h1", "h2"}
 \* request hosts: the configured ones, an unrelated one, and two whose names contain a configured
-\* host name as suffix / prefix (rendered "evil-"+h1 and h1+".evil.test")
-ReqHosts == {"h1", "h2", "h3", "xh1", "h1x"}
+\* host name as suffix / prefix (rendered "evil-"+h1 and h1+".evil.test"), and two that differ from a
+\* configured one only by the port: h1 is configured without a port and h1p is the same name with one, h2 is
+\* configured with a port and h2n is the same name without it - an address is the whole host:port string
+ReqHosts == {"h1", "h2", "h3", "xh1", "h1x", "h1p", "h2n"}
 
 \* ---- splitting (strings.Split) on a separator symbol: sequence of pieces ----
 RECURSIVE SplitOn(_, _)
